@@ -339,6 +339,9 @@ pub struct EnumSpec {
     /// the generator paired a case-sensitive with a case-insensitive spelling on purpose (C12)
     #[serde(default)]
     pub mixed_case_overlap: bool,
+    /// name of the typed constant (`BASE` if None); may look like a name the derive generates itself
+    #[serde(default)]
+    pub base_const_name: Option<String>,
 }
 
 impl EnumSpec {
@@ -364,6 +367,7 @@ impl EnumSpec {
             macro_args: vec![],
             decoys: vec![],
             mixed_case_overlap: false,
+            base_const_name: None,
         }
     }
     pub fn type_name(&self) -> String {
